@@ -387,8 +387,15 @@ def sig_c02(f):
     if r == "member-order":
         return "C02|member-order"
     if r == "member-type":
-        return (f"C02|member-type|position={f['position']}|{f['occurs']}|builtin={f['builtin']}"
-                f"|expected={f['expected']}|actual={f['actual']}")
+        ew, ec = f["expected"].split("<")[0], f["expected"].split("<")[1].rstrip(">")
+        aw, ac = f["actual"].split("<")[0], f["actual"].split("<")[1].rstrip(">")
+        if ec == ac:
+            carrier = "same"
+        elif f["wrong_struct"]:
+            carrier = "other-struct"
+        else:
+            carrier = f"builtin={f['builtin']},expected={ec},actual={ac}"
+        return f"C02|member-type|position={f['position']}|{f['occurs']}|expected-wrapper={ew}|actual-wrapper={aw}|carrier={carrier}"
     return None
 
 
